@@ -256,6 +256,17 @@ int main()
             const const_bitspan s = const_bitspan(arena, num(tok[1]), num(tok[2])).at_offset(num(tok[3]));
             std::printf("%zu %zu\n", s.size(), s.offset());
         }
+        else if (c == "xmis" && nt == 3)
+        {
+            const const_bitspan s(arena, 0, num(tok[1]));
+            std::printf("%zu %d %d\n", s.offset_misalignment(num(tok[2])), s.offset_alings_to(num(tok[2])) ? 1 : 0, s.offset_alings_to_byte() ? 1 : 0);
+        }
+        else if (c == "xso" && nt == 4)
+        {
+            const_bitspan s(arena, num(tok[1]), num(tok[2]));
+            s.set_offset(num(tok[3]));
+            std::printf("%zu %zu\n", s.size(), s.offset());
+        }
         else if (c == "xob" && nt == 3)
         {
             std::printf("%zu\n", const_bitspan(arena, num(tok[1]), num(tok[2])).offset_bytes());
